@@ -1,5 +1,7 @@
 import SmVerif.Model.Proto
 import SmVerif.Model.Vlq
+import SmVerif.Model.Lookup
+import SmVerif.Model.V3Spec
 /-
 Line-protocol driver: one case per input line, one output line per case:
   <model>\t<spec>\t<wf>
@@ -31,18 +33,105 @@ def fits63 (ds : List Nat) : Bool :=
   let (gs, _) := Vlq.splitGroups ds []
   gs.all fun g => decide (Vlq.groupValue g < 9223372036854775808)
 
+def parseTok (s : String) : Tok :=
+  let f := (s.splitOn ":").map parseNat
+  let g (i : Nat) : Nat := f.getD i 0
+  { dl := g 0, dc := g 1, sl := g 2, sc := g 3, src := g 4, name := g 5, rng := g 6 != 0 }
+
+def parseToks (s : String) : List Tok := (splitList s ";").map parseTok
+
+def showTok (t : Tok) : String :=
+  s!"{t.dl}:{t.dc}:{t.sl}:{t.sc}:{t.src}:{t.name}:{if t.rng then 1 else 0}"
+
+def showToks (ts : List Tok) : String := showList showTok ts ";"
+
+def tokKey (t : Tok) : List Nat := [t.dl, t.dc, t.sl, t.sc, t.src, t.name, if t.rng then 1 else 0]
+def lexLe : List Nat → List Nat → Bool
+  | [], _ => true
+  | _ :: _, [] => false
+  | a :: as, b :: bs => a < b || (a == b && lexLe as bs)
+/-- canonical order for comparison: position first (iteration order), ties by the other fields -/
+def canonToks (ts : List Tok) : List Tok := ts.mergeSort fun a b => lexLe (tokKey a) (tokKey b)
+
+def parsePos (s : String) : Nat × Nat :=
+  let f := (s.splitOn ":").map parseNat
+  (f.getD 0 0, f.getD 1 0)
+
+/-- `map.dec`: decode + the sort of `SourceMap::new` -/
+def mapDec (nsrc nn : Nat) (m r : List Nat) : Res (List Tok) :=
+  match Mappings.decodeMappings m r nsrc nn with
+  | .ok ts => .ok (Lookup.sortToks ts)
+  | .error e => .error e
+
+/-- `map.enc` on `SourceMap::new(tokens)`: sort, then both serialisers (range mappings first, as
+`as_raw_sourcemap` evaluates its fields in that order) -/
+def mapEnc (nn : Nat) (ts : List Tok) : Res (List Nat × Option (List Nat)) :=
+  let ts := Lookup.sortToks ts
+  match Mappings.serializeRangeMappings ts with
+  | .error e => .error e
+  | .ok r => match Mappings.serializeMappings ts nn with
+    | .error e => .error e
+    | .ok m => .ok (m, r)
+
+def showEnc (x : List Nat × Option (List Nat)) : String :=
+  s!"{toHex x.1} {match x.2 with | some r => toHex r | none => "none"}"
+
+def showLookup : Res (Option (Nat × Tok × Nat)) → String
+  | .error _ => "!"
+  | .ok none => "-"
+  | .ok (some (i, t, c)) => s!"{i}/{showTok t}/{c}"
+
 def handle (toks : List String) : String :=
   match toks with
-  | ["vlq.enc", xs] =>
-    let m := showRes toHex (Vlq.encodeSeg (parseInts xs))
-    s!"{m}\t-\t1"
-  | ["vlq.dec", hx] =>
-    let bs := parseHex hx
-    let m := showRes showInts (Vlq.parseVlq bs)
-    match Vlq.toDigits bs with
-    | some ds => s!"{m}\t{showRes showInts (Vlq.specVlq ds)}\t{b2s (fits63 ds)}"
-    | none => s!"{m}\t-\t0"
-  | ["vlq.range", lo, hi] => s!"{vlqRange (parseInt lo) (parseInt hi)}\t-\t1"
+  | ["map.dec", nsrc, nn, m, r] =>
+    let rb := if r = "none" then [] else parseHex r
+    let mb := parseHex m
+    let model := showRes (fun ts => showToks (canonToks ts)) (mapDec (parseNat nsrc) (parseNat nn) mb rb)
+    -- independent reading (C02 / C06); an undecodable rangeMappings piece is outside both properties
+    let rmiOk := ((Mappings.splitOn Mappings.SEMI mb).zipIdx.all fun (ln, l) =>
+      ln = [] || (Mappings.decodeRmi ((Mappings.splitOn Mappings.SEMI rb).getD l [])).isSome)
+    let (spec, wf) := if !rmiOk then ("-", "1") else
+      match V3.specDecode mb rb (parseNat nsrc) (parseNat nn) with
+      | .fault => ("err", "1")
+      | .outside => ("-", "1")
+      | .toks ts => ("ok " ++ showToks (canonToks ts), "1")
+    s!"{model}\t{spec}\t{wf}"
+  | ["map.enc", nsrc, nn, ts] =>
+    let toks := parseToks ts
+    let r := mapEnc (parseNat nn) toks
+    let model := showRes showEnc r
+    -- C03: the independent reader must read the serialised form back as the map's tokens
+    let wf := V3.wfToks (parseNat nsrc) toks
+    let spec := match r with
+      | .ok (m, rm) =>
+        match V3.specDecode m (rm.getD []) (parseNat nsrc) (parseNat nn) with
+        | .toks back => if back = V3.roundTripSpec (parseNat nn) toks then model else "unreadable " ++ showToks back
+        | .fault => "unreadable fault"
+        | .outside => "unreadable outside"
+      | .error _ => model
+    s!"{model}\t{if wf then spec else "-"}\t1"
+  | ["map.rt", nsrc, nn, ts] =>
+    let toks := parseToks ts
+    let r : Res (List Tok) := match mapEnc (parseNat nn) toks with
+      | .error e => .error e
+      | .ok (m, r) => mapDec (parseNat nsrc) (parseNat nn) m (r.getD [])
+    let wf := V3.wfToks (parseNat nsrc) toks
+    let spec := if wf then "ok " ++ showToks (V3.roundTripSpec (parseNat nn) toks) else "-"
+    s!"{showRes showToks r}\t{spec}\t1"
+  | ["map.lookup", ts, qs] =>
+    let ts := Lookup.sortToks (parseToks ts)
+    let qs := (splitList qs).map parsePos
+    let rs := qs.map fun q => Lookup.lookup ts q
+    let out := if rs.any (fun r => match r with | .error _ => true | _ => false) then "err panic"
+      else "ok " ++ ",".intercalate (rs.map showLookup)
+    -- C04 + C07: closest preceding token, first of equals; column shifted only for a range token on its own line
+    let spec := "ok " ++ ",".intercalate (qs.map fun q =>
+      match Lookup.lookupSpec ts q with
+      | [] => "-"
+      | alts => "|".intercalate (alts.map fun (i, t) =>
+        let c := if t.rng && t.dl = q.1 then Lookup.satAdd t.sc (q.2 - t.dc) else t.sc
+        s!"{i}/{showTok t}/{c}"))
+    s!"{out}\t{spec}\t1"
   | _ => "bad-op\t-\t0"
 
 partial def loop (h : IO.FS.Stream) (out : IO.FS.Stream) : IO Unit := do
